@@ -74,7 +74,9 @@ let run (cases : case list) =
            | ["aread"; n; _] | ["setbuf"; n] | ["chain"; _; n] -> o_buf := int_of_string n
            | _ -> ());
           List.iter (fun tok ->
-            if !oracle_live && String.length tok > 1 && tok.[0] = 'R' then
+            (* 1 (sender): an address reported by an earlier read no longer names that datagram's sender *)
+            if !oracle_live && String.length tok > 1 && tok.[0] = 'A' then fail i "1" op impl
+            else if !oracle_live && String.length tok > 1 && tok.[0] = 'R' then
               match (match String.split_on_char ':' tok with
                      | [a; b; c; d; e; f] -> [a; b; c; d; e; f]
                      | [a; b; c; d; e1; e2; f] -> [a; b; c; d; e1 ^ ":" ^ e2; f]     (* long payloads print as h<len>:<checksum> *)
